@@ -41,6 +41,16 @@ CHECKS = {
          "Every sequence runs against the real decoder in its own recover; return value, Available() and the error flag are compared with the model after every operation. IPP requests over the five operations with every supported value tag and 1..3 values go through server.Run; reply version/request-id/charset/language and the print-job event fields must equal what was encoded.",
          "Out-of-bounds reads are observed through Go's bounds checks (capacity == length). The statement's treatment of negative arguments is modelled as 'does not fit' for Copy and 'rewind inside the buffer' for Seek.",
          "DESIGN.md §5 C17"),
+ "C05": ("exploration",
+         "runtime monitoring: read-back of the real event constructors (exhaustive over all 1- and 2-byte payloads, seeded to 64 KiB, address kinds, option subsets, merge/copy vs a map model) through Range/ToMap/MarshalJSON and the real file channel's lines on disk; every event the services emit under the C01 workload is re-marshalled and field-checked in the capture channel",
+         "Payload hex/length/address equalities and JSON key containment are asserted on ~87k constructor cases and on every event captured while each of the 25 service configurations is driven by the C01 generators through the real dispatcher.",
+         "JSON need only contain every key (lossy UTF-8 in 'payload' is allowed). kafka/console channels are not exercised (no broker; same json.Marshal call as the capture channel makes).",
+         "DESIGN.md §5 C05"),
+ "C09": ("exploration",
+         "runtime monitoring: resource census (goroutines by honeytrap stack signature via pprof, descriptors by kind via /proc/self/fd, CPU via getrusage) at quiescence before/after histories of N and 2N sequential connections per service, and server-side close of connections left silent at protocol stages",
+         "Each service of the C01 quantifier runs in its own child behind the real dispatcher; after a warm-up census, N generated connections (plus FTP passive requests never connected to and six silent connections) are followed by a 40 s grace and a census, then N more, grace, census. A leak is an excess that is positive after N and larger after 2N; silent connections must be closed by the server within 95 s; idle CPU must stay below half a core.",
+         "Bounded time is checked against generous fixed bounds (40 s after client close, 95 s of silence). Goroutines are attributed by stack signature restricted to honeytrap frames.",
+         "DESIGN.md §5 C09"),
 }
 
 NOT_YET = {
